@@ -35,7 +35,7 @@ bool boundary_suite(Report& rep, const std::string& tmpdir)
     auto go = [&](const std::string& c) { return ref::legal_moves(r.cur).empty() ? true : r.go(c, false); };
     long maxp = opt_int("exclude_game_plies_ge", 0);
     // (1) long games: 730 plies + search, then past the 800-entry history
-    for (int target : {730, 799, 801, 1000})
+    for (int target : {730, 790, 796, 797, 798, 799, 801, 1000})
     {
         if (maxp > 0 && target >= maxp)
         {
@@ -46,7 +46,9 @@ bool boundary_suite(Report& rep, const std::string& tmpdir)
         r.send("ucinewgame");
         r.set_position(g);
         r.cur = g.cur;
-        if (!go("go depth 3")) return false;
+        sess::ctl().cap = 40000;
+        if (!go(target >= 790 && target < 800 ? "go depth 5" : "go depth 3")) return false;
+        sess::ctl().cap = 8000;
         r.send("printboard");
         r.send("staticeval");
         if (!r.sync()) return false;
